@@ -1,9 +1,9 @@
 package main
 
 import (
-	"strings"
 	"fmt"
 	"math/rand"
+	"strings"
 
 	regexp2 "github.com/dlclark/regexp2/v2"
 	"github.com/dlclark/regexp2/v2/syntax"
@@ -108,9 +108,10 @@ func findModeOf(src string, opts, copts int) string {
 
 func runC03(r *core.Run) int {
 	r.ReplayKnown(replayC03)
-	nPat := r.Pick(12000, 240000)
+	nPat := r.Pick(14000, 240000)
 	nDirected := r.Pick(30, 60)
 	base := rand.New(rand.NewSource(r.Seed*104729 + 3)).Int63()
+	runC03Surrogates(r)
 	r.Parallel(nPat, func(i int, l *core.Local) {
 		rng := rand.New(rand.NewSource(base + int64(i)*1000003))
 		pc := makePattern(i, rng, [3]int{3, 2, 1}, 12)
